@@ -1,7 +1,7 @@
 (** C19 — Stored results come back exactly, and queries mean what they say.
     Statements only; proofs are in Proofs/Words.v, Query.v, QueryDb.v,
     StoreFmt.v, ReaderKeys.v, ReaderWf.v, SqlLists.v, Sql.v, SqlDb.v,
-    RecordRuns.v.
+    RecordRuns.v, LabelSpec.v, C19Findings.v.
     The generated SQL is modelled relationally (Model/Sql.v: the sub-selects of
     part.sql, INNER JOIN ... USING, LEFT JOIN Records, GROUP BY/COUNT, ORDER BY,
     LIMIT, the INSERTs under the PRIMARY/FOREIGN KEYs, TEXT compared bytewise =
@@ -10,7 +10,7 @@
 From Coq Require Import Permutation Sorted.
 From Perf Require Import Base.Bytes Model.Words Model.Query Model.StoreFmt Model.Sql Model.RecordRuns Proofs.Words
      Proofs.Query Proofs.StoreFmt Proofs.QueryDb Proofs.ReaderKeys Proofs.ReaderWf Proofs.SqlLists Proofs.Sql
-     Proofs.SqlDb Proofs.RecordRuns.
+     Proofs.SqlDb Proofs.RecordRuns Model.LabelSpec Proofs.LabelSpec Proofs.C19Findings.
 
 (** several terms on one key, merged left to right as parseQuery does, mean
     their conjunction — on every non-empty label value (None = io.EOF = never) *)
@@ -346,12 +346,27 @@ Theorem C19_spec_runs_unique : forall gs,
 Proof. exact runs_unique. Qed.
 Print Assumptions C19_spec_runs_unique.
 
-(** Labels.Equal as written in Go (a missing key reads as "") is equality of
-    the label maps on results without empty label values *)
+(** Labels.Equal — as REPAIRED by hooks/fix_c19_labels_equal.diff (a key missing
+    on the other side is a difference) — is equality of the label maps *)
 Theorem C19_go_same_labels_is_identical : forall a b,
   plain a -> plain b -> same_labels a b = identical a b.
 Proof. exact same_labels_identical. Qed.
 Print Assumptions C19_go_same_labels_is_identical.
+
+(** ... for all results with sorted keys, also with empty label values *)
+Theorem C19_go_same_labels_is_identical_sorted : forall a b,
+  sorted_keys a -> sorted_keys b -> same_labels a b = identical a b.
+Proof. exact same_labels_identical_sorted. Qed.
+Print Assumptions C19_go_same_labels_is_identical_sorted.
+
+(** before the repair a missing key read as "": {a:"", name:X} "equalled"
+    {b:y, name:X} (one way round only), so BenchmarkX/a= followed by
+    BenchmarkX/b=y became ONE record indexed under the first one's labels *)
+Theorem C19_labels_equal_unrepaired_refuted :
+  exists l b, labels_equal_go_unrepaired l b = true /\ labels_equal_go_unrepaired b l = false /\ l <> b
+              /\ labels_equal_go l b = false.
+Proof. exact labels_equal_unrepaired_refuted. Qed.
+Print Assumptions C19_labels_equal_unrepaired_refuted.
 
 (** insertLabel's counter in closed form: queuing k labels with [pend]
     arguments pending forces a flush iff the last label finds >= 990 pending *)
@@ -420,6 +435,75 @@ Example C19_example_records_follow_rule :
   /\ process_upload u = inl (spec_upload_records u) /\ length (spec_upload_records u) = 41%nat
   /\ list_uploads (fst (apply_upload [] u)) (bs "name:Run") 0 = inl [(u_id u, 1%N)].
 Proof. exact records_follow_rule_instance. Qed.
+
+(** ** which labels a stored result carries (Model/LabelSpec.v), stated without
+    the Reader's loop: key by key the server label (upload, upload-part,
+    upload-time, upload-file, by — a file cannot override them), else the LAST
+    "key: value" line in front of the benchmark line unless its value is empty;
+    name-derived labels: the last definition of the key among gomaxprocs / name
+    / the k=v or sub<i> parts. The model of the Reader with the server's
+    AddLabels returns exactly these results, for every file and upload. *)
+Theorem C19_read_with_is_spec : forall u i f,
+  read_with (file_meta u i f) (f_body f) = spec_file_results u i f.
+Proof. exact read_with_is_spec. Qed.
+Print Assumptions C19_read_with_is_spec.
+
+Theorem C19_upload_results_are_spec : forall u fs i,
+  upload_results u i fs = spec_upload_results u i fs.
+Proof. exact upload_results_are_spec. Qed.
+Print Assumptions C19_upload_results_are_spec.
+
+Theorem C19_result_labels_declarative : forall u i f rbefore rest n r,
+  In r (spec_results_from (server_label u i f) rbefore rest n) ->
+  exists before name, bench_name (r_content r) = Some name
+    /\ (forall k, lookup k (r_labels r) = result_label (server_label u i f) before k)
+    /\ (r_namelabels r = [] \/ forall k, lookup k (r_namelabels r) = name_label name k).
+Proof. exact result_labels_declarative. Qed.
+Print Assumptions C19_result_labels_declarative.
+
+Theorem C19_name_labels_last_definition : forall name k,
+  lookup k (name_labels name) = name_label name k.
+Proof. exact name_labels_lookup. Qed.
+Print Assumptions C19_name_labels_last_definition.
+
+Theorem C19_server_labels : forall u i f k,
+  lookup k (lset_all (file_meta u i f) []) = server_label u i f k.
+Proof. exact server_labels_lookup. Qed.
+Print Assumptions C19_server_labels.
+
+(** ** recorded findings, on the model (vm_compute) *)
+
+(** C19_empty_equality_refused: a: is refused as a whole, also next to name:X,
+    although exactly one stored result has a = "" *)
+Theorem C19_empty_equality_refuted :
+  db_query (stored eq_witness) (bs "a:") = inr EMissingValue
+  /\ db_query (stored eq_witness) (bs "a: name:X") = inr EMissingValue
+  /\ list_uploads (stored eq_witness) (bs "a:") 0 = inr EMissingValue
+  /\ (exists r, demanded eq_witness (bs "a:") = Some [r] /\ demanded eq_witness (bs "a: name:X") = Some [r]
+                /\ lookup (bs "a") (r_namelabels r) = Some [])
+  /\ (exists r, db_query (stored eq_witness) (bs "name:X") = inl [r]).
+Proof. exact empty_equality_refused. Qed.
+Print Assumptions C19_empty_equality_refuted.
+
+(** C19_empty_name_label_value: a> returns and counts the result whose a is
+    empty next to the one with a = 1; the property demands only the latter *)
+Theorem C19_empty_value_gt_refuted :
+  demanded eq_witness (bs "a>") = Some (match demanded eq_witness (bs "a:1") with Some l => l | None => [] end)
+  /\ (exists r1 r2, db_query (stored eq_witness) (bs "a>") = inl [r1; r2])
+  /\ (exists r2, demanded eq_witness (bs "a>") = Some [r2])
+  /\ list_uploads (stored eq_witness) (bs "a>") 0 = inl [(bs "19700101.1", 2%N)].
+Proof. exact empty_value_gt_matches. Qed.
+Print Assumptions C19_empty_value_gt_refuted.
+
+(** C19_trailing_cr_lost *)
+Theorem C19_trailing_cr_refuted :
+  exists r r',
+    demanded cr_witness (bs "k>v") = Some [r] /\ db_query (stored cr_witness) (bs "k>v") = inl [r']
+    /\ db_query (stored cr_witness) (bs "k:v") = inl []
+    /\ lookup (bs "k") (r_labels r) = Some (bs "v" ++ [c_cr]) /\ lookup (bs "k") (r_labels r') = Some (bs "v")
+    /\ r_content r = bs "BenchmarkX 1 ns/op" ++ [c_cr] /\ r_content r' = bs "BenchmarkX 1 ns/op".
+Proof. exact trailing_cr_lost. Qed.
+Print Assumptions C19_trailing_cr_refuted.
 
 (** non-vacuity of the hypotheses of the SQL theorems: two uploads through the
     insert model; invariant, constraints, increasing (Day, Seq); a query with an
